@@ -1,9 +1,336 @@
 import BarterModel.Lemmas.MockExchange
+/-!
+# C08 — Simulated exchange keeps a consistent ledger of balances, orders and fills
+
+Statements only (proofs go through `Lemmas/MockExchange.lean`). The model is
+`Model/MockExchange.lean`: `openOrder` mirrors `MockExchange::open_order`, `step` one iteration of
+`MockExchange::run`, `run` a whole request history, `init c` the exchange built from a
+configuration `c` (latency, fee percentage, initial balances, instruments).
+
+Hypotheses used, and only where stated:
+* `c.wf = true` / `WF s` — every balance has `total = free` and both assets of every configured
+  instrument have a balance. These are the exchange's own internal assumptions (`assert_eq!`,
+  `expect`); outside them the code panics (modelled as `Result.panic`). `reach_wf` shows they
+  hold in every state reachable from a well-formed configuration.
+* `∀ p ∈ c.init, 0 ≤ p.2` — initial balances are not negative (only for `non_negative`).
+Nothing is assumed about the fee percentage, prices or quantities (any rationals, any sign):
+"quantity" in the amounts is the magnitude `|q|` (the code takes `quantity.abs()`).
+
+`Spec.spends`, `Spec.required`, `Spec.fees`, `Spec.accepted`, `Spec.ledger`, `Spec.fills`,
+`Spec.respond`, `Spec.tradesSince` are the abstract specification written from the property text.
+-/
 namespace BarterModel.Props.C08
 open BarterModel.MockExchange
 
+/-! ## 0. Reachable states are well formed; the exchange never panics -/
+
+/-- Every state reachable from a well-formed configuration by any request history satisfies the
+exchange's internal assumptions. -/
+theorem reach_wf {c : Cfg} (hc : c.wf = true) (ops : List (Int × Request)) : WF (run (init c) ops) :=
+  refines_wf (refines_run hc ops) hc
+
+/-- … so no open-order request can make it panic, whichever way it is driven. -/
+theorem never_panics {c : Cfg} (hc : c.wf = true) (ops : List (Int × Request)) (t : Int) (r : Req) :
+    (openOrder (run (init c) ops) r).2 ≠ .panic ∧
+    (step (run (init c) ops) t (.openOrder r)).2.1 ≠ .order .panic := by
+  refine ⟨openOrder_no_panic (reach_wf hc ops) r, ?_⟩
+  rw [step_open_resp]
+  intro h; injection h with h
+  exact openOrder_no_panic (updateTime_wf t (reach_wf hc ops)) r h
+
+/-! ## 1. `accept_iff_funds` -/
+
+/-- An order is accepted **iff** it is a market order on a known instrument and the asset it spends
+(quote for a buy, base for a sell) holds at least the required amount (price × |quantity| × (1+fee)
+for a buy, |quantity| × (1+fee) for a sell). Direct call of `open_order` in any well-formed state. -/
+theorem accept_iff_funds {s : State} (h : WF s) (r : Req) :
+    (∃ f, (openOrder s r).2 = .accepted f) ↔
+      r.kind = .market ∧ ∃ a b, Spec.spends s.instruments r = some a ∧ s.balances[a]? = some b ∧
+        Spec.required s.fee r ≤ b.free := by
+  have hnp := openOrder_no_panic h r
+  rcases openOrder_cases s r with ⟨hk, e⟩ | ⟨hk, hi, e⟩ | ⟨u, _, _, _, e⟩ | ⟨u, cur, _, _, _, _, e⟩ |
+    ⟨u, cur, hk, hi, hb, ht, hn, e⟩ | ⟨u, cur, hk, hi, hb, ht, hn, e⟩
+  · rw [e]; constructor
+    · rintro ⟨f, hf⟩; cases hf
+    · rintro ⟨hk', _⟩; exact absurd hk' hk
+  · rw [e]; constructor
+    · rintro ⟨f, hf⟩; cases hf
+    · rintro ⟨_, a, b, hsp, _⟩; rw [spends_eq, hi] at hsp; cases hsp
+  · rw [e] at hnp; exact absurd rfl hnp
+  · rw [e] at hnp; exact absurd rfl hnp
+  · rw [e]; constructor
+    · rintro ⟨f, hf⟩; cases hf
+    · rintro ⟨_, a, b, hsp, hb', hle⟩
+      rw [spends_eq, hi] at hsp; simp only [Option.map_some, Option.some.injEq] at hsp; subst hsp
+      rw [hb] at hb'; injection hb' with hb'; subst hb'
+      exfalso; apply hn; grind
+  · rw [e]; constructor
+    · intro _
+      refine ⟨hk, spentAsset u r.side, cur, by rw [spends_eq, hi]; rfl, hb, by grind⟩
+    · intro _; exact ⟨_, rfl⟩
+
+/-- The same through the request loop (`MockExecution` → `MockExchange::run`): the oneshot answer
+to an open-order request is `Ok` iff the funds rule holds in the state before the request. -/
+theorem step_accept_iff_funds {s : State} (h : WF s) (t : Int) (r : Req) :
+    (∃ f, (step s t (.openOrder r)).2.1 = .order (.accepted f)) ↔
+      r.kind = .market ∧ ∃ a b, Spec.spends s.instruments r = some a ∧ s.balances[a]? = some b ∧
+        Spec.required s.fee r ≤ b.free := by
+  rw [step_open_resp]
+  have := accept_iff_funds (updateTime_wf t h) r
+  constructor
+  · rintro ⟨f, hf⟩
+    injection hf with hf
+    obtain ⟨hk, a, b, hsp, hb, hle⟩ := this.mp ⟨f, hf⟩
+    rw [updateTime_getElem?] at hb
+    cases hb0 : s.balances[a]? with
+    | none => simp [hb0] at hb
+    | some b0 =>
+      simp only [hb0, Option.map_some, Option.some.injEq] at hb; subst hb
+      exact ⟨hk, a, b0, hsp, hb0, hle⟩
+  · rintro ⟨hk, a, b, hsp, hb, hle⟩
+    obtain ⟨f, hf⟩ := this.mpr ⟨hk, a, { b with time := (updateTime s t).time }, hsp,
+      by rw [updateTime_getElem?, hb]; rfl, hle⟩
+    exact ⟨f, by rw [hf]⟩
+
+/-- In a well-formed state every order is either accepted or rejected (never a panic), so
+"rejected" is exactly the negation of the funds rule. -/
+theorem rejected_iff_not_funds {s : State} (h : WF s) (r : Req) :
+    (∃ e, (openOrder s r).2 = .rejected e) ↔ ¬ ∃ f, (openOrder s r).2 = .accepted f := by
+  have hnp := openOrder_no_panic h r
+  cases hres : (openOrder s r).2 with
+  | rejected e => simp
+  | accepted f => simp
+  | panic => exact absurd hres hnp
+
+/-- Limit orders are rejected (in any state, before anything else is looked at). -/
 theorem limit_rejected (s : State) (r : Req) (h : r.kind = .limit) :
     openOrder s r = (s, .rejected .kindUnsupported) := by
   simp [openOrder, h]
+
+/-- Market orders on an instrument the exchange is not set up for are rejected. -/
+theorem unknown_instrument_rejected (s : State) (r : Req) (hk : r.kind = .market)
+    (h : s.instruments.length ≤ r.instr) :
+    openOrder s r = (s, .rejected (.instrumentInvalid r.instr)) := by
+  have : s.instruments[r.instr]? = none := by rw [List.getElem?_eq_none_iff]; exact h
+  simp [openOrder, hk, this]
+
+/-! ## 2. `exact_debit`, `non_negative`, rejection leaves the ledger alone -/
+
+/-- An accepted order debits exactly the spent asset by exactly the required amount: the ledger
+(`(total, free)` per asset) afterwards is the ledger before with that one entry lowered; the
+balance notification carries that new entry. -/
+theorem exact_debit (s : State) (r : Req) (f : Fill) (h : (openOrder s r).2 = .accepted f) :
+    Spec.spends s.instruments r = some f.asset ∧
+    ∃ b, s.balances[f.asset]? = some b ∧
+      ledger (openOrder s r).1 =
+        (ledger s).set f.asset (b.free - Spec.required s.fee r, b.free - Spec.required s.fee r) ∧
+      f.balance.total = b.free - Spec.required s.fee r ∧
+      f.balance.free = b.free - Spec.required s.fee r ∧
+      (openOrder s r).1.balances[f.asset]? = some f.balance := by
+  rcases openOrder_cases s r with ⟨_, e⟩ | ⟨_, _, e⟩ | ⟨u, _, _, _, e⟩ | ⟨u, cur, _, _, _, _, e⟩ |
+    ⟨u, cur, _, _, _, _, _, e⟩ | ⟨u, cur, hk, hi, hb, ht, hn, e⟩ <;> rw [e] at h ⊢ <;> try (cases h; done)
+  simp only at h; injection h with h; subst h
+  refine ⟨by rw [spends_eq, hi]; rfl, cur, hb, ?_, rfl, rfl, ?_⟩
+  · simp [ledger, List.map_set]
+  · have : spentAsset u r.side < s.balances.length := by
+      have := List.getElem?_eq_some_iff.mp hb; exact this.1
+    simp [this]
+
+/-- Every other balance is unchanged by an accepted order. -/
+theorem others_untouched (s : State) (r : Req) (f : Fill) (h : (openOrder s r).2 = .accepted f)
+    (a : Nat) (ha : a ≠ f.asset) : (ledger (openOrder s r).1)[a]? = (ledger s)[a]? := by
+  obtain ⟨_, b, _, hl, _⟩ := exact_debit s r f h
+  rw [hl, List.getElem?_set]; simp [Ne.symm ha]
+
+/-- A rejected order changes nothing at all (balances, trades, id counter). -/
+theorem rejected_untouched (s : State) (r : Req) (e : Err) (h : (openOrder s r).2 = .rejected e) :
+    (openOrder s r).1 = s := by
+  rcases openOrder_cases s r with ⟨_, e'⟩ | ⟨_, _, e'⟩ | ⟨u, _, _, _, e'⟩ | ⟨u, cur, _, _, _, _, e'⟩ |
+    ⟨u, cur, _, _, _, _, _, e'⟩ | ⟨u, cur, _, _, _, _, _, e'⟩ <;> rw [e'] at h ⊢
+  cases h
+
+/-- Through the request loop: any request that is not an accepted open-order request (queries,
+cancel requests, rejected orders) leaves every balance, the recorded trades and the id counter
+untouched and broadcasts nothing. -/
+theorem step_untouched (s : State) (t : Int) (rq : Request)
+    (h : ∀ f, (step s t rq).2.1 ≠ .order (.accepted f)) :
+    ledger (step s t rq).1 = ledger s ∧ (step s t rq).1.trades = s.trades ∧
+    (step s t rq).1.seq = s.seq ∧ (step s t rq).2.2 = [] := by
+  cases rq with
+  | openOrder r =>
+    have hna : ∀ f, (openOrder (updateTime s t) r).2 ≠ .accepted f := by
+      intro f hf; apply h f; rw [step_open_resp, hf]
+    rw [step_open_not_accepted hna]
+    have hsame : (openOrder (updateTime s t) r).1 = updateTime s t := by
+      rcases openOrder_cases (updateTime s t) r with ⟨_, e⟩ | ⟨_, _, e⟩ | ⟨u, _, _, _, e⟩ | ⟨u, cur, _, _, _, _, e⟩ |
+        ⟨u, cur, _, _, _, _, _, e⟩ | ⟨u, cur, _, _, _, _, _, e⟩ <;> rw [e]
+      exact absurd (by rw [e]) (hna _)
+    simp only [hsame, updateTime_ledger]
+    exact ⟨trivial, rfl, rfl, trivial⟩
+  | _ => simp [step, updateTime_ledger] <;> simp [updateTime]
+
+/-- No balance ever goes negative: over any request history from non-negative initial balances
+(no other hypothesis: any fee, any prices and quantities, even an ill-formed configuration). -/
+theorem non_negative (c : Cfg) (h0 : ∀ p ∈ c.init, 0 ≤ p.2) (ops : List (Int × Request)) :
+    ∀ b ∈ (run (init c) ops).balances, 0 ≤ b.free ∧ (c.wf = true → 0 ≤ b.total) := by
+  have hnn : NonNeg (run (init c) ops) := by
+    apply run_inv (P := NonNeg) (fun s t rq hs => step_nonneg hs t rq)
+    intro b hb
+    simp only [init, List.mem_map] at hb
+    obtain ⟨p, hp, rfl⟩ := hb
+    exact h0 p hp
+  intro b hb
+  refine ⟨hnn b hb, fun hc => ?_⟩
+  rw [(reach_wf hc ops).1 b hb]; exact hnn b hb
+
+/-! ## 3. `one_fill` -/
+
+/-- Each accepted order yields exactly one fill: the recorded trades grow by exactly that trade, its
+trade id and order id are the current counter value (which then increases), its fees are the
+configured percentage of the notional in quote units, it echoes the request, and exactly two
+notifications are broadcast — the balance snapshot of the debited asset, then the trade. -/
+theorem one_fill (s : State) (t : Int) (r : Req) (f : Fill)
+    (h : (step s t (.openOrder r)).2.1 = .order (.accepted f)) :
+    let s' := (step s t (.openOrder r)).1
+    (step s t (.openOrder r)).2.2 = [.balance f.asset f.balance, .trade f.trade] ∧
+    s'.trades = s.trades ++ [f.trade] ∧ s'.seq = s.seq + 1 ∧
+    f.id = s.seq ∧ f.trade.id = s.seq ∧ f.trade.orderId = s.seq ∧
+    f.trade.fees = Spec.fees s.fee r ∧ f.filled = r.qty ∧
+    f.trade.instr = r.instr ∧ f.trade.strategy = r.strategy ∧ f.trade.side = r.side ∧
+    f.trade.price = r.price ∧ f.trade.qty = r.qty ∧
+    f.trade.time = t + ((s.latency / 2 : Nat) : Int) ∧ f.time = f.trade.time := by
+  rw [step_open_resp] at h
+  injection h with h
+  rw [step_open_accepted h]
+  rcases openOrder_cases (updateTime s t) r with ⟨_, e⟩ | ⟨_, _, e⟩ | ⟨u, _, _, _, e⟩ | ⟨u, cur, _, _, _, _, e⟩ |
+    ⟨u, cur, _, _, _, _, _, e⟩ | ⟨u, cur, hk, hi, hb, ht, hn, e⟩ <;> rw [e] at h ⊢ <;> try (cases h; done)
+  simp only at h; injection h with h; subst h
+  simp [ackTrade, updateTime]
+
+/-- A request that is not accepted yields no fill and no notification. -/
+theorem no_fill (s : State) (t : Int) (rq : Request)
+    (h : ∀ f, (step s t rq).2.1 ≠ .order (.accepted f)) :
+    (step s t rq).2.2 = [] ∧ (step s t rq).1.trades = s.trades ∧ (step s t rq).1.seq = s.seq :=
+  let ⟨_, h2, h3, h4⟩ := step_untouched s t rq h
+  ⟨h4, h2, h3⟩
+
+/-- Ids are fresh: over any request history (any configuration) the recorded trade ids are exactly
+`0, 1, …, seq-1` in order — hence pairwise distinct — and order id = trade id. -/
+theorem ids_fresh (c : Cfg) (ops : List (Int × Request)) :
+    let s := run (init c) ops
+    s.trades.map (·.id) = List.range s.seq ∧ (s.trades.map (·.id)).Nodup ∧
+    ∀ tr ∈ s.trades, tr.orderId = tr.id := by
+  have key : ∀ s : State, (IdsOk s ∧ ∀ tr ∈ s.trades, tr.orderId = tr.id) →
+      ∀ t rq, (IdsOk (step s t rq).1 ∧ ∀ tr ∈ (step s t rq).1.trades, tr.orderId = tr.id) := by
+    intro s ⟨hs, ho⟩ t rq
+    by_cases hacc : ∃ f, (step s t rq).2.1 = .order (.accepted f)
+    · obtain ⟨f, hf⟩ := hacc
+      cases rq with
+      | openOrder r =>
+        obtain ⟨_, h2, h3, _, h5, h6, _⟩ := one_fill s t r f hf
+        refine ⟨?_, ?_⟩
+        · simp only [IdsOk] at hs ⊢
+          rw [h2, h3, List.map_append, hs, List.range_succ]; simp [h5]
+        · intro tr htr
+          rw [h2] at htr
+          rcases List.mem_append.mp htr with htr | htr
+          · exact ho tr htr
+          · simp only [List.mem_singleton] at htr; subst htr; rw [h5, h6]
+      | _ => simp [step] at hf
+    · have hna : ∀ f, (step s t rq).2.1 ≠ .order (.accepted f) := fun f hf => hacc ⟨f, hf⟩
+      obtain ⟨_, h2, h3, _⟩ := step_untouched s t rq hna
+      refine ⟨?_, ?_⟩
+      · simp only [IdsOk] at hs ⊢; rw [h2, h3]; exact hs
+      · rw [h2]; exact ho
+  have := run_inv (P := fun s => IdsOk s ∧ ∀ tr ∈ s.trades, tr.orderId = tr.id)
+    (fun s t rq hs => key s hs t rq) (s := init c) ⟨by simp [IdsOk, init], by simp [init]⟩ ops
+  refine ⟨this.1, ?_, this.2⟩
+  rw [this.1]; exact List.nodup_range
+
+/-! ## 4. `queries` / refinement to the history-only specification -/
+
+/-- After any request history from a well-formed configuration, the exchange's ledger, recorded
+trades and id counter are functions of the *accepted open-order requests of that history alone*:
+each balance is the initial balance minus what the accepted orders spent of that asset, the trades
+are the accepted orders' fills numbered in order, the counter is their number. `Spec.accepted`
+singles the accepted orders out by the funds rule applied to that same ledger. -/
+theorem refines_spec {c : Cfg} (hc : c.wf = true) (ops : List (Int × Request)) :
+    let s := run (init c) ops
+    let acc := Spec.accepted c (opens c ops)
+    ledger s = Spec.ledger c acc ∧ s.trades = Spec.fills c acc ∧ s.seq = acc.length := by
+  have h := refines_run hc ops
+  exact ⟨refines_ledger h, h.trades, h.seq⟩
+
+/-- The answer to the next open-order request (oneshot response and broadcast notifications) is the
+specification's answer computed from the accepted orders of the history: accepted with the debited
+asset's new balance and the one fill, or rejected with no notification. -/
+theorem responses_refine {c : Cfg} (hc : c.wf = true) (ops : List (Int × Request)) (t : Int) (r : Req) :
+    let s := run (init c) ops
+    let acc := Spec.accepted c (opens c ops)
+    match Spec.respond c acc ⟨exchangeTime c t, r⟩ with
+    | some (a, b, tr) =>
+      (step s t (.openOrder r)).2 =
+        (.order (.accepted ⟨acc.length, exchangeTime c t, r.qty, a, ⟨b, b, exchangeTime c t⟩, tr⟩),
+         [.balance a ⟨b, b, exchangeTime c t⟩, .trade tr])
+    | none => ∃ err, (step s t (.openOrder r)).2 = (.order (.rejected err), []) :=
+  refines_open_response (refines_run hc ops) hc t r
+
+/-- Account snapshots, balance queries and trade queries reflect exactly the accepted orders: the
+balances returned are the specification's ledger, the trades returned are the accepted orders'
+fills with exchange time `≥ since`. -/
+theorem queries_refine {c : Cfg} (hc : c.wf = true) (ops : List (Int × Request)) (t since : Int) :
+    let s := run (init c) ops
+    let acc := Spec.accepted c (opens c ops)
+    (∃ bs, (step s t .fetchSnapshot).2 = (.snapshot bs, []) ∧
+        bs.map (fun b => (b.total, b.free)) = Spec.ledger c acc) ∧
+    (∃ bs, (step s t .fetchBalances).2 = (.balances bs, []) ∧
+        bs.map (fun b => (b.total, b.free)) = Spec.ledger c acc) ∧
+    (step s t (.fetchTrades since)).2 = (.trades (Spec.tradesSince c acc since), []) := by
+  have h := refines_updateTime (refines_run hc ops) t
+  have hl := refines_ledger h
+  refine ⟨⟨_, rfl, hl⟩, ⟨_, rfl, hl⟩, ?_⟩
+  simp only [step, tradesSince, Spec.tradesSince]
+  rw [h.trades]
+
+/-- The direct path (`MockExchange::open_order` called on the struct, no request loop, the exchange
+clock stays at 0 and nobody acknowledges trades): after any sequence of calls from a well-formed
+configuration the ledger and the id counter are the specification's, and the answer to the next call
+is the specification's answer. -/
+theorem direct_refines {c : Cfg} (hc : c.wf = true) (rs : List Req) (r : Req) :
+    let s := runDirect (init c) rs
+    let acc := Spec.accepted c (opensDirect rs)
+    ledger s = Spec.ledger c acc ∧ s.seq = acc.length ∧
+    match Spec.respond c acc ⟨0, r⟩ with
+    | some (a, b, tr) => (openOrder s r).2 = .accepted ⟨acc.length, 0, r.qty, a, ⟨b, b, 0⟩, tr⟩
+    | none => ∃ err, openOrder s r = (s, .rejected err) := by
+  obtain ⟨h, htime, _⟩ := refinesD_run hc rs
+  have h' : Refines c { runDirect (init c) rs with trades := Spec.fills c (Spec.accepted c (opensDirect rs)) }
+      (Spec.accepted c (opensDirect rs)) := h
+  refine ⟨(refines_ledger h' :), h'.seq, ?_⟩
+  rcases refinesD_open h hc r with ⟨hf, a, v, hsp, hv, hres, _⟩ | ⟨hf, err, hres⟩
+  · rw [htime] at hres
+    simp only [Spec.respond, hf, if_true, hsp, hv]
+    exact hres
+  · simp only [Spec.respond, hf]
+    exact ⟨err, hres⟩
+
+/-! ## Non-vacuity: a concrete configuration and history -/
+
+/-- base asset 0 holds 2, quote asset 1 holds 100, fee 1 %, latency 100 ms, one instrument 0/1. -/
+def c0 : Cfg := { latency := 100, fee := 1/100, init := [(2, 2), (100, 100)], instruments := [⟨0, 1⟩] }
+def buy0 : Req := { instr := 0, strategy := 1, cid := 7, side := .buy, price := 10, qty := 2, kind := .market }
+def sell0 : Req := { instr := 0, strategy := 1, cid := 8, side := .sell, price := 10, qty := 2, kind := .market }
+
+example : c0.wf = true := by decide
+example : ∀ p ∈ c0.init, 0 ≤ p.2 := by decide
+/-- the buy is accepted (needs 20.2 of 100 quote) … -/
+example : (step (init c0) 5 (.openOrder buy0)).2 =
+    (.order (.accepted ⟨0, 55, 2, 1, ⟨399/5, 399/5, 55⟩, ⟨0, 0, 0, 1, 55, .buy, 10, 2, 1/5⟩⟩),
+     [.balance 1 ⟨399/5, 399/5, 55⟩, .trade ⟨0, 0, 0, 1, 55, .buy, 10, 2, 1/5⟩]) := by decide +kernel
+/-- … the sell is rejected (needs 2.02 of 2 base), so both branches of every theorem are inhabited. -/
+example : (step (init c0) 5 (.openOrder sell0)).2.1 =
+    .order (.rejected (.balanceInsufficient 0 2 (101/50))) := by decide +kernel
+example : Spec.accepted c0 (opens c0 [(5, .openOrder buy0), (6, .openOrder sell0), (7, .fetchSnapshot)]) =
+    [⟨55, buy0⟩] := by decide +kernel
 
 end BarterModel.Props.C08
